@@ -64,7 +64,6 @@ def tform(e):
     d = {}
     for term in sp.Add.make_args(e):
         c, m = term.as_independent(T, as_Add=False)
-        c = sp.nsimplify(c) if c.is_number and not c.is_Rational else c
         if not c.is_Rational:
             return None
         if not monomial_ok(m):
@@ -137,13 +136,11 @@ def my_laplace(e, s0):
             tot += c
             continue
         w = p['trig'][1] if p['trig'] else 0
-        z = sp.factorial(p['n']) / (s0 - p['a'] - sp.I * w) ** (p['n'] + 1)
-        z = sp.expand_complex(sp.nsimplify(z))
-        re_, im_ = sp.re(z), sp.im(z)
-        v = im_ if (p['trig'] and p['trig'][0] == 'sin') else re_
-        v = sp.nsimplify(v)
-        if not v.is_Rational:
-            return None
+        d0 = s0 - p['a']
+        z = gpow((Fq(int(d0.p), int(d0.q)), Fq(-int(sp.Rational(w).p), int(sp.Rational(w).q))), -(p['n'] + 1))
+        f = Fq(int(sp.factorial(p['n'])))
+        v = f * (z[1] if (p['trig'] and p['trig'][0] == 'sin') else z[0])
+        v = sp.Rational(v.numerator, v.denominator)
         tot += c * v
     return tot
 
@@ -160,33 +157,114 @@ def classify(m):
 
 
 # ---- exact evaluation ------------------------------------------------------------------
+from fractions import Fraction as Fq
+
+
+class NotExact(Exception):
+    pass
+
+
+def gmul(x, y):
+    return (x[0] * y[0] - x[1] * y[1], x[0] * y[1] + x[1] * y[0])
+
+
+def ginv(x):
+    n = x[0] * x[0] + x[1] * x[1]
+    if n == 0:
+        raise NotExact('division by zero')
+    return (x[0] / n, -x[1] / n)
+
+
+def gpow(x, n):
+    if n < 0:
+        return gpow(ginv(x), -n)
+    r = (Fq(1), Fq(0))
+    while n:
+        if n & 1:
+            r = gmul(r, x)
+        x = gmul(x, x)
+        n >>= 1
+    return r
+
+
+def isqrt_frac(q):
+    import math
+    if q < 0:
+        return None
+    a, b = math.isqrt(q.numerator), math.isqrt(q.denominator)
+    if a * a == q.numerator and b * b == q.denominator:
+        return Fq(a, b)
+    return None
+
+
+def geval(x, point):
+    """exact value of a sympy expression built from rationals, I, the symbols of
+    `point`, + * and integer powers (and square roots of rational squares)"""
+    if x.is_Rational:
+        return (Fq(int(x.p), int(x.q)), Fq(0))
+    if x is sp.I:
+        return (Fq(0), Fq(1))
+    if x.is_Symbol:
+        if x.name in point:
+            v = point[x.name]
+            return (Fq(int(v.p), int(v.q)), Fq(0))
+        raise NotExact('free symbol ' + x.name)
+    if x.is_Add:
+        re_, im_ = Fq(0), Fq(0)
+        for a in x.args:
+            v = geval(a, point)
+            re_ += v[0]
+            im_ += v[1]
+        return (re_, im_)
+    if x.is_Mul:
+        r = (Fq(1), Fq(0))
+        for a in x.args:
+            r = gmul(r, geval(a, point))
+        return r
+    if x.is_Pow:
+        b, e = x.args
+        if e.is_Integer:
+            return gpow(geval(b, point), int(e))
+        if e.is_Rational and e.q == 2:
+            v = geval(b, point)
+            if v[1] == 0:
+                r = isqrt_frac(v[0])
+                if r is not None:
+                    return gpow((r, Fq(0)), int(e.p))
+        raise NotExact('power ' + str(e))
+    if x.is_Float:
+        q = sp.nsimplify(x)
+        if q.is_Rational:
+            return (Fq(int(q.p), int(q.q)), Fq(0))
+    if x.func == sp.Abs:
+        v = geval(x.args[0], point)
+        if v[1] == 0:
+            return (abs(v[0]), Fq(0))
+    raise NotExact(str(x.func))
+
+
 def cval(x, point):
     """value of an expression without t at the point -> (re, im) sympy Rationals or None"""
     try:
         x = sp.sympify(getattr(x, 'sympy', x))
         if x.has(EPS):
             x = sp.limit(x, EPS, 0)
+        v = geval(x, point)
+        return (sp.Rational(v[0].numerator, v[0].denominator), sp.Rational(v[1].numerator, v[1].denominator))
+    except NotExact:
+        pass
+    except Exception:
+        return None
+    try:
         sub = {}
         for sy in x.free_symbols:
             if sy.name in point:
                 sub[sy] = point[sy.name]
-        x = x.subs(sub)
-        if x.free_symbols:
-            return None
-        x = sp.nsimplify(x) if not x.is_Rational else x
-        if x.is_Rational:
-            return (x, sp.Integer(0))
-        x = sp.expand_complex(x)
-        re_, im_ = sp.nsimplify(sp.re(x)), sp.nsimplify(sp.im(x))
-        if re_.is_Rational and im_.is_Rational:
-            return (re_, im_)
-        x = sp.simplify(x)
-        re_, im_ = sp.nsimplify(sp.re(x)), sp.nsimplify(sp.im(x))
-        if re_.is_Rational and im_.is_Rational:
-            return (re_, im_)
+        x = sp.simplify(x.subs(sub))
+        v = geval(x, point)
+        return (sp.Rational(v[0].numerator, v[0].denominator), sp.Rational(v[1].numerator, v[1].denominator))
     except Exception:
         return None
-    return None
 
 
 def enc(v):
@@ -285,17 +363,25 @@ def part_images(k, v, point, want_ilt=False):
     return out
 
 
-def sup_dump(V, point, cheap_ilt):
-    """everything observable about one Superposition"""
+def sup_dump(V, point, cheap_ilt, mode='full'):
+    """everything observable about one Superposition (mode 'lite': stored parts,
+    decomposition and laplace() only)"""
     out = {}
     has_s = 's' in V
-    want = cheap_ilt and has_s
+    want = cheap_ilt and has_s and mode == 'full'
     out['parts'] = [part_images(k, v, point, want) for k, v in V.items()]
     try:
         dec = V.decompose()
         out['dec'] = [part_images(k, v, point, want) for k, v in dec.items()]
     except Exception as e:
         out['dec_error'] = type(e).__name__
+    if mode == 'lite':
+        try:
+            y = V.laplace()
+            out['laplace'] = enc(cval(y.sympy, point))
+        except Exception as e:
+            out['laplace_error'] = type(e).__name__
+        return out
     try:
         out['kinds_tr'] = [keystr(k) for k in V.kinds(True)]
     except Exception as e:
@@ -350,28 +436,25 @@ def make(lines):
     return c
 
 
-def api_dump(c, point, cheap, names=None, nodes=None):
-    out = {'V': {}, 'I': {}, 'N': {}}
+def api_dump(c, point, cheap, names=None, nodes=None, mode='full'):
+    """public API: node voltages cct[n].V and branch currents cct[name].I"""
+    out = {'I': {}, 'N': {}}
     for name in (names if names is not None else list(c.elements)):
         if name not in c.elements:
             continue
         e = c.elements[name]
-        if e.nosim or e.ignore or e.type in ('W', 'O', 'P', 'K', 'A'):
+        if e.nosim or e.ignore:
             continue
-        try:
-            out['V'][name] = sup_dump(c[name].V, point, cheap)
-        except Exception as ex:
-            out['V'][name] = {'error': type(ex).__name__ + ': ' + str(ex)[:80]}
         if e.type in ('R', 'C', 'L', 'V', 'I', 'E', 'H', 'TF', 'AM', 'Y', 'Z'):
             try:
-                out['I'][name] = sup_dump(c[name].I, point, cheap)
+                out['I'][name] = sup_dump(c[name].I, point, cheap, mode)
             except Exception as ex:
                 out['I'][name] = {'error': type(ex).__name__ + ': ' + str(ex)[:80]}
     for n in (nodes if nodes is not None else list(c.nodes)):
         if str(n) not in c.nodes:
             continue
         try:
-            out['N'][str(n)] = sup_dump(c[str(n)].V, point, cheap)
+            out['N'][str(n)] = sup_dump(c[str(n)].V, point, cheap, mode)
         except Exception as ex:
             out['N'][str(n)] = {'error': type(ex).__name__ + ': ' + str(ex)[:80]}
     return out
@@ -436,7 +519,7 @@ def run_circuit(case):
             d = {'netlist': str(k).split('\n'), 'is_ivp': bool(k.is_IVP), 'is_time_domain': bool(k.is_time_domain),
                  'ics': list(k.analysis.ics)}
             d['sub'] = sub_results(k, point)
-            d['api'] = api_dump(k, point, cheap, names, nodes)
+            d['api'] = api_dump(k, point, cheap, names, nodes, 'lite')
             killed[g] = d
         except Exception as e:
             import traceback
@@ -447,7 +530,7 @@ def run_circuit(case):
         try:
             lines = [sc['line'] if l.split()[0] == sc['src'] else l for l in case['netlist']]
             c2 = make(lines)
-            res['scaled'] = {'src': sc['src'], 'k': sc['k'], 'api': api_dump(c2, point, cheap, names, nodes)}
+            res['scaled'] = {'src': sc['src'], 'k': sc['k'], 'api': api_dump(c2, point, cheap, names, nodes, 'lite')}
         except Exception as e:
             res['scaled'] = {'error': type(e).__name__ + ': ' + str(e)[:200]}
     return res
